@@ -44,6 +44,25 @@ def handle (args : List String) (impl : List String) : String :=
       else if deserDb file != some d then "bad reading the file back (model reader) does not give the object"
       else "ok"
     | _, _ => "bad-op"
+  -- f gridser <ndim> <nx,x0,dx,angle per dimension> <ncol> <nech> <locators> <names> <values> => <file tokens>
+  | ["gridser", ndim, dimt, ncol, nech, locs, names, vals] =>
+    match ndim.toNat?, ncol.toNat?, nech.toNat? with
+    | some ndim, some ncol, some nech =>
+      let dt := if dimt = "-" then [] else dimt.splitOn ","
+      if dt.length ≠ 4 * ndim then "bad-op" else
+      let dims := (List.range ndim).map fun i => (dt.getD (4 * i) "", dt.getD (4 * i + 1) "", dt.getD (4 * i + 2) "", dt.getD (4 * i + 3) "")
+      let d : DbFile := { ncol := ncol, nech := nech, locators := if locs = "-" then [] else locs.splitOn ",",
+                          names := if names = "-" then [] else names.splitOn ",",
+                          rows := chunkS ncol nech (if vals = "-" then [] else vals.splitOn ",") }
+      let g : GridFile := { dims := dims, db := d }
+      let file := dropTrailingEmpty (splitLines impl)
+      let model := dropTrailingEmpty (serGridWith (toString ndim) (toString ncol) (toString nech) g)
+      if file != model then
+        let i := ((file.zip model).findIdx? fun (a, b) => a != b).getD (min file.length model.length)
+        s!"bad line {i}: model={model.getD i []} file={file.getD i []}"
+      else if deserGrid file != some g then "bad reading the grid file back (model reader) does not give the object"
+      else "ok"
+    | _, _, _ => "bad-op"
   -- two numeric tokens of the files of the original and of the reloaded object
   | ["dig15", cls, a, b] =>
     match parseQ? a, parseQ? b with
